@@ -38,6 +38,9 @@ type c04Case struct {
 	Revision      bool   // the object is a ControllerRevision (rolling strategy) instead of a child
 	DesiredLabels string // labels the hook puts on a new desired child: "match" or "nomatch"
 	LiveOwners    string // "" / "same": as cached; "added": the live object gained a foreign plain owner since it was observed; "removed": it lost its plain owner x
+	// RecheckFault: the first uncached read of the parent (the adoption re-check) fails with this error; a twin of
+	// the object under test (same labels, same owners) exists, so that the claim pass has a second candidate
+	RecheckFault string
 }
 
 func c04Gen(c c04Case) bool { return strings.HasPrefix(c.Selector, "generated") }
@@ -156,6 +159,11 @@ func c04Run(c c04Case) []mc.Finding {
 		kit.Deleting(kit.Finalizers(obj, "ex.io/hold"))
 	}
 	w.Sim.Seed(obj)
+	if c.RecheckFault != "" {
+		twin := kit.Copy(obj)
+		kit.Field(twin, name+"2", "metadata", "name")
+		w.Sim.Seed(twin)
+	}
 	qp := kit.Obj(kit.Thing, "n1", "q")
 	kit.Field(qp, "quid", "metadata", "uid")
 	w.Sim.Seed(qp)
@@ -229,10 +237,50 @@ func c04Run(c c04Case) []mc.Finding {
 	}))
 	before := w.Sim.Get(k, "n1", name)
 	replacedUID := kit.UID(before)
+	if c.RecheckFault != "" {
+		used := false
+		w.Sim.Plan = func(r *sim.Request) *sim.Fault {
+			if used || r.Kind != kit.Thing || r.Verb != "get" || r.Name != "p" {
+				return nil
+			}
+			used = true
+			switch c.RecheckFault {
+			case "429":
+				return &sim.Fault{Code: 429, Reason: "TooManyRequests"}
+			case "timeout":
+				return &sim.Fault{Transport: true}
+			}
+			return &sim.Fault{Code: 500, Reason: "InternalError"}
+		}
+	}
 	fp := vcache.TakeFingerprint()
 	err, p, stack := w.syncKey("n1/p")
+	w.Sim.Plan = nil
 	if p != nil {
 		bad("panic", "panic %v\n%s", p, stack)
+		return f
+	}
+	if c.RecheckFault != "" {
+		// whatever else happens: every accepted adoption (of the object or its twin) comes after a SUCCESSFUL
+		// uncached read that showed the parent alive with the observed UID
+		fresh := false
+		for _, r := range w.Sim.Log {
+			if r.Kind == kit.Thing && r.Verb == "get" && r.Name == "p" && r.Code == 200 && !r.Injected && kit.UID(r.Post) == "puid" && kit.Get(r.Post, "metadata", "deletionTimestamp") == nil {
+				fresh = true
+			}
+			if r.Kind == k && r.Verb == "update" && r.Applied && kit.ControllerUID(r.Pre) != "puid" && kit.ControllerUID(r.Post) == "puid" && !fresh {
+				bad("adopted-without-fresh-read:after-failed-recheck", "the uncached read of the parent failed (%s) and %s was adopted all the same, without any successful read before it", c.RecheckFault, r.Name)
+			}
+		}
+		if err == nil {
+			for _, r := range w.Sim.Log {
+				if r.Kind == kit.Thing && r.Verb == "get" && r.Injected {
+					bad("failed-recheck-not-reported", "the adoption re-check failed (%s) and the sync reported success", c.RecheckFault)
+					break
+				}
+			}
+		}
+		c04Outcome = "recheck-fault"
 		return f
 	}
 	if e := fp.Verify(); e != nil {
@@ -547,6 +595,15 @@ func TestVerifC04(t *testing.T) {
 									r.Outcome(c04Outcome)
 									if idx%499 == 0 {
 										r.Sample(c)
+									}
+									// the adoption re-check itself fails (with a second candidate in the same claim pass)
+									if dl == "match" && lb == "match" && !cd && cp == "alive" && sel != "empty" && (ow == "none" || ow == "extra-only" || ow == "plain-ours") {
+										for _, rf := range []string{"500", "429", "timeout"} {
+											c2 := c
+											c2.RecheckFault = rf
+											r.Case(c2, fmt.Sprint(idx)+"recheck-"+rf, func() []mc.Finding { return c04Run(c2) })
+											r.Outcome(c04Outcome + ":" + rf)
+										}
 									}
 									// stale cache with respect to the object's OTHER owner references
 									if dl == "match" && !cd && cp == "alive" && lp == "same" && sel != "empty" {
